@@ -188,7 +188,7 @@ def run_check(check, tier, seed, replay=None):
             "exhaustive": bool(getattr(check, "exhaustive", False)),
             "explanation": getattr(check, "explanation", ""),
         }
-        if not replay:
+        if not replay and not os.environ.get('VERIF_NO_EVIDENCE'):
             core.write_evidence(pid, tier, seed, cov, time.time() - t0, len(violations), check.assumptions)
         log("[%s] %s: %d groups, %d events, %d failing, %d violations, %.1fs" %
             (pid, tier, len(groups), nevents, len(bad), len(violations), time.time() - t0))
